@@ -43,13 +43,20 @@ def run(ctx):
         r = min(m, n)
         cands = [('integer', qx.rand_int(rng, m, n, -3, 3), None), ('pure-imaginary', [[Q(0, a.x, a.y, a.z) for a in row] for row in qx.rand_int(rng, m, n, -3, 3)], None)]
         for rk in sorted({r, max(r - 1, 0), max(r - 2, 0), 0}):
-            sv = [Fraction(3 - i, 1) for i in range(rk)] + [Fraction(0)] * (r - rk)
+            sv = [Fraction(rk - i, 1) for i in range(rk)] + [Fraction(0)] * (r - rk)       # rk, rk-1, ..., 1: positive and distinct
             A, _, _ = spectral_problem(rng, m, n, sv); cands.append((f'rank{rk}', A, rk))
         if n >= 2:
             Z = qx.rand_int(rng, m, n, -2, 2)
             for i in range(m): Z[i][rng.randrange(n)] = Q()
             for i in range(m): Z[i][0] = Q()
             cands.append(('zero-first-column', Z, None))
+        for kdep in range(1, min(m, n)):                 # column kdep is a right-combination of the columns before it
+            Dm = qx.rand_int(rng, m, n, -3, 3); cs = [Q(*[rng.randint(-2, 2) for _ in range(4)]) for _ in range(kdep)]
+            for i in range(m):
+                acc = Q()
+                for j in range(kdep): acc = acc + Dm[i][j] * cs[j]
+                Dm[i][kdep] = acc
+            cands.append((f'dependent-column-{kdep}', Dm, None))
         T = qx.rand_int(rng, m, n, -3, 3)
         for i in range(m):
             for j in range(n):
@@ -65,7 +72,10 @@ def run(ctx):
             An = qx.to_np(A)
             # rank of the leading columns decides whether Q is determined (nullity >= 2 of the leading block: oracle freedom)
             lead_rank = utils.rank(An[:, :r]) if r else 0
-            tag = ':rank-deficient-leading-block' if (r - lead_rank) >= 1 and (m - lead_rank) >= 2 else ''      # at least two quaternion directions of Q are left to the oracle
+            first_dep = next((k for k in range(r) if utils.rank(An[:, :k + 1]) == (utils.rank(An[:, :k]) if k else 0)), r)       # first column depending on its predecessors
+            tag = ''
+            if (r - lead_rank) >= 1 and (m - lead_rank) >= 2: tag = ':rank-deficient-leading-block'      # at least two quaternion directions of Q are left to the oracle
+            elif (r - lead_rank) >= 1 and 1 <= first_dep < r - 1: tag = ':dependent-interior-column'    # the real QR meets the dependent (non-zero) column before the last one
             inp = {'shape': [m, n], 'class': cls, 'A': [[[str(c) for c in a.t()] for a in row] for row in A]}
             rec.clear(); qsvd.qr = rec_qr
             try: Qm, Rm = qsvd.qr_qua(An)
